@@ -496,8 +496,8 @@ func writeReplayDir(dir string, P *Program, hs HarnessSpec, ts TierSpec, v Viola
 	sh := fmt.Sprintf(`#!/bin/sh
 # replays the counterexample against the compiled real package
 export GOFLAGS=-mod=mod GOPROXY=off GOSUMDB=off GOTOOLCHAIN=local
-cd /repo && VERIF_VECTOR=%s/vector.json timeout 120 go test -tags verif -vet=off -count=1 -overlay %s -run '^%s$' -v %s
-`, dir, ov, run, pkg)
+cd %s && VERIF_VECTOR=%s/vector.json timeout 120 go test -tags verif -vet=off -count=1 -overlay %s -run '^%s$' -v %s
+`, repoRoot(), dir, ov, run, pkg)
 	return os.WriteFile(filepath.Join(dir, "run.sh"), []byte(sh), 0o755)
 }
 
@@ -525,7 +525,7 @@ func runNativeTests(P *Program, pattern string, pkg string) (bool, string) {
 		pkg = "./..."
 	}
 	cmd := exec.Command("timeout", "300", "go", "test", "-tags", "verif", "-vet=off", "-count=1", "-overlay", ov, "-run", pattern, "-v", pkg)
-	cmd.Dir = "/repo"
+	cmd.Dir = repoRoot()
 	cmd.Env = append(os.Environ(), "GOFLAGS=-mod=mod", "GOPROXY=off", "GOSUMDB=off", "GOTOOLCHAIN=local")
 	out, err := cmd.CombinedOutput()
 	return err == nil, string(out)
